@@ -253,3 +253,14 @@ def concrete_ok(r: 'Ty') -> bool:
             or ty_is_dict(r)):
         return True
     return reg_has(r) and not cls_is_abstract(r)
+
+
+# ---- C13: adding bool_union_fix to a Union that contains bool changes
+# nothing.  S is the union of the matches of the other members; it contains
+# the matches of bool.
+
+@lemma()
+def boolfix_neutral(n: 'YNode', s: 'Set[Ty]') -> bool:
+    return implies(
+        forall_in(rec(n, T_BOOL), lambda r: in_set(r, s)),
+        fixbool(set_union(s, rec(n, T_BOOLFIX))) == fixbool(s))
